@@ -164,6 +164,54 @@ impl FixtureDatabase {
     proof { assert(body.take(body.len() as int) =~= body); }
 @*/
 
+/*@ extract src/fixtures/analyzer.rs analyze_file
+@tags C04 C06 C07 C10 C12 C19
+@recv mut
+@sig
+    requires old(self).version() < u64::MAX,
+        parse_ok(content@) ==> old(self).version() + 1 + stmts_vdefs(body_of(ast_of(content@)), canon(pbv(&file_path)), content@).len() <= u64::MAX,
+    ensures
+        // the public entry points are exactly analyze_file_internal with cleanup_previous = true: no shortcut, no extra work
+        final(self).version() != old(self).version(),
+        !parse_ok(content@) ==> final(self).defs() == old(self).defs() && final(self).fdefs() == old(self).fdefs()
+            && final(self).uses() == old(self).uses() && final(self).byfix() == old(self).byfix()
+            && final(self).undeclared_fixtures == old(self).undeclared_fixtures && final(self).imports == old(self).imports,
+        parse_ok(content@) ==> ({
+            let f = canon(pbv(&file_path));
+            let body = body_of(ast_of(content@));
+            let d0 = clean_defs_names(old(self).defs(), f, sbucket(old(self).fdefs(), f));
+            let fd0 = old(self).fdefs().remove(f);
+            &&& final(self).defs() == push_defs(d0, stmts_vdefs(body, f, content@))
+            &&& final(self).fdefs() == add_fdefs(fd0, stmts_vdefs(body, f, content@))
+            &&& final(self).uses() == push_uses(old(self).uses().remove(f), stmts_vuses(body, f, content@))
+            &&& final(self).byfix() == push_byfix(clean_byfix(old(self).byfix(), f), stmts_vuses(body, f, content@))
+        }),
+@*/
+
+/*@ extract src/fixtures/analyzer.rs analyze_file_fresh
+@tags C04 C06 C07 C10 C12 C19
+@recv mut
+@sig
+    requires old(self).version() < u64::MAX,
+        parse_ok(content@) ==> old(self).version() + 1 + stmts_vdefs(body_of(ast_of(content@)), canon(pbv(&file_path)), content@).len() <= u64::MAX,
+    ensures
+        // the public entry points are exactly analyze_file_internal with cleanup_previous = false: no shortcut, no extra work
+        final(self).version() != old(self).version(),
+        !parse_ok(content@) ==> final(self).defs() == old(self).defs() && final(self).fdefs() == old(self).fdefs()
+            && final(self).uses() == old(self).uses() && final(self).byfix() == old(self).byfix()
+            && final(self).undeclared_fixtures == old(self).undeclared_fixtures && final(self).imports == old(self).imports,
+        parse_ok(content@) ==> ({
+            let f = canon(pbv(&file_path));
+            let body = body_of(ast_of(content@));
+            let d0 = old(self).defs();
+            let fd0 = old(self).fdefs();
+            &&& final(self).defs() == push_defs(d0, stmts_vdefs(body, f, content@))
+            &&& final(self).fdefs() == add_fdefs(fd0, stmts_vdefs(body, f, content@))
+            &&& final(self).uses() == push_uses(old(self).uses().remove(f), stmts_vuses(body, f, content@))
+            &&& final(self).byfix() == push_byfix(clean_byfix(old(self).byfix(), f), stmts_vuses(body, f, content@))
+        }),
+@*/
+
 /*@ extract src/fixtures/analyzer.rs analyze_file_internal
 @tags C06
 @as canary_analyze_keeps_old_usages
